@@ -22,6 +22,52 @@ def read_levels(lo, hi, n, finite_bounds):
     return lo.cdf(pts), hi.cdf(pts)
 
 
+def large_n_part(rep, rng, tier, ED, stats):
+    """dkw / ks beyond the reach of the exact rational evaluation: n in the hundreds and thousands"""
+    import ks_oracle
+    ns = [101, 150, 1000, 1001, 3000] if tier == "quick" else [101, 150, 400, 1000, 1001, 2000, 3000, 5000, 20000]
+    for n in ns:
+        for method in ("dkw", "ks"):
+            for conf in [0.5, 0.9, rng.choice([0.99, 0.999, round(0.05 + 0.9 * rng.random(), 3)])]:
+                ys = [float(i) for i in range(1, n + 1)]
+                rng.shuffle(ys)
+                finite = rng.random() < 0.5
+                a, b = (0.0, float(n + 1)) if finite else (-INF, INF)
+                inp = dict(n=n, confidence=conf, method=method, a=a, b=b)
+                rep.count("large_n:method=" + method)
+                try:
+                    with warnings.catch_warnings():
+                        warnings.simplefilter("ignore")
+                        lo, pt, hi = ED.confidence_bands(ys, conf, a=a, b=b, method=method, n_jobs=1)
+                except Exception as e:  # noqa: BLE001
+                    rep.violate(what="confidence_bands raised on a valid input", error=repr(e), input=inp, call="EmpiricalDistribution.confidence_bands")
+                    continue
+                L, U = read_levels(lo, hi, n, finite)
+                idx = np.arange(1, n + 1)
+                alpha, beta = np.asarray(L[1:], dtype=float), np.asarray(U[:-1], dtype=float)   # L_i at Y_(i), U_{i-1} just below it
+                # eps from the unclipped entries of either side
+                cand = [float(np.max(idx / n - alpha)), float(np.max(beta - (idx - 1) / n))]
+                eps = max(cand)
+                want_a, want_b = np.clip(idx / n - eps, 0, 1), np.clip((idx - 1) / n + eps, 0, 1)
+                rep.case(("large_n", method, n, conf, a), sample=dict(inp, eps=eps))
+                if not (np.all(np.abs(alpha - want_a) <= 1e-12) and np.all(np.abs(beta - want_b) <= 1e-12)):
+                    rep.violate(what="dkw/ks band levels are not i/n -+ eps clipped to [0,1] for a single eps", input=inp, observed=dict(eps_lower=cand[0], eps_upper=cand[1]),
+                                call="EmpiricalDistribution.confidence_bands")
+                    continue
+                cov = ks_oracle.ks_cdf(n, eps)
+                ref = float(stats.kstwo(n).cdf(eps))
+                if abs(cov - ref) > 1e-6:
+                    rep.skip("large_n_oracles_disagree(matrix algorithm vs scipy.kstwo.cdf)>1e-6")
+                    continue
+                tol = 1e-12 if n <= 100 else 1e-5
+                ok = (cov >= conf - 1e-9) if method == "dkw" else (abs(cov - conf) <= tol + 1e-7)
+                if not ok:
+                    rep.violate(what="simultaneous coverage of the band, P[D_n <= eps] for the eps read off the returned levels (exact Kolmogorov-"
+                                     "Smirnov distribution by the Durbin matrix algorithm), is not the nominal one",
+                                input=inp, expected=(f">= {conf}" if method == "dkw" else f"= {conf} +- {tol}"), observed=cov, eps=eps,
+                                call="EmpiricalDistribution.confidence_bands")
+
+
 def run(seed, tier, replay=None):
     from opda.nonparametric import EmpiricalDistribution as ED
     from scipy import stats
@@ -41,14 +87,35 @@ def run(seed, tier, replay=None):
     plan = [(m, n, c) for m in ("dkw", "ks") for n in ns_fast for c in confs_fast]
     plan += [(m, n, c) for m in ("ld_equal_tailed", "ld_highest_density") for n in ns_ld for c in confs_ld
              if not (m == "ld_highest_density" and n < 2)]
+    # ---- history pairs (ld methods): the same n and a generator in the same state, first with the OTHER method / another confidence;
+    # the band of the second call must still have its nominal coverage (a result may not depend on what was computed before)
+    prime = {}
+    for j in range(4 if tier == "quick" else 16):
+        m2 = ("ld_equal_tailed", "ld_highest_density")[j % 2]
+        m1 = ("ld_highest_density", "ld_equal_tailed")[j % 2] if j % 4 < 2 else m2
+        n = rng.choice([2, 3, 5])
+        c2 = 0.5
+        c1 = c2 if m1 != m2 else rng.choice([0.9, 0.1])
+        plan.append((m2, n, c2))
+        prime[len(plan) - 1] = (m1, c1)
     reqs, meta = [], []
-    for method, n, conf in plan:
+    for pi, (method, n, conf) in enumerate(plan):
         ys = [float(i) for i in range(1, n + 1)]
         rng.shuffle(ys)
         finite = rng.random() < 0.5
         a, b = (0.0, float(n + 1)) if finite else (-INF, INF)
         gseed = rng.randrange(2 ** 31)
         inp = dict(n=n, confidence=conf, method=method, a=a, b=b, generator_seed=gseed)
+        if pi in prime:
+            m1, c1 = prime[pi]
+            inp["preceded_by"] = dict(method=m1, confidence=c1, generator_seed=gseed, note="same sample, a generator in the same state")
+            rep.count("history=preceded_by_another_ld_call_with_equal_generator_state")
+            try:
+                with warnings.catch_warnings():
+                    warnings.simplefilter("ignore")
+                    ED.confidence_bands(ys, c1, a=a, b=b, method=m1, generator=np.random.default_rng(gseed), n_jobs=1)
+            except Exception:  # noqa: BLE001  (judged in its own right elsewhere in the plan)
+                pass
         rep.count("method=" + method)
         rep.count("bounds=" + ("finite" if finite else "infinite"))
         try:
@@ -97,10 +164,15 @@ def run(seed, tier, replay=None):
                              "code's level tables) is not the nominal one",
                         input=inp, expected=exp, observed=float(cov), lower_levels=alpha, upper_levels=beta,
                         call="EmpiricalDistribution.confidence_bands")
+    large_n_part(rep, rng, tier, ED, stats)
     return rep.result(
         rule="(method, n, confidence, finite/infinite bounds): dkw/ks for n up to 40 (quick) / 80 (thorough) at confidences incl. 0, 1e-12, "
              "1-1e-12, 1; ld_* for small n at a few confidences (each call simulates 100 000 trials). The level tables are read off the "
-             "returned distributions' public cdf; the coverage is evaluated exactly in Q by the driver (band.steck).",
+             "returned distributions' public cdf; the coverage is evaluated exactly in Q by the driver (band.steck). "
+             "Large n (101..3000 quick, ..20000 thorough), dkw/ks: the levels must be clip(i/n -+ eps) (then, by theorem "
+             "C01.dkw_ks_box_iff_sup, coverage = P[D_n <= eps]), and P[D_n <= eps] is evaluated by an independent Durbin/"
+             "Marsaglia-Tsang-Wang matrix algorithm (cross-checked against scipy.stats.kstwo.cdf). ld history pairs: a call preceded "
+             "by another ld call (other method or confidence) with a generator in the same state.",
         extra=dict(driver_lines=drv.lines))
 
 
